@@ -4,7 +4,8 @@ stdin : {"files": [{"path": <maskbits .par file>, "text": <contents, written to 
                      the same path may occur several times with different contents>, "calls": [call, ...]}, ...]}
 stdout: {"pydl_file": ..., "files": [{"rows": [[flag, bit, label], ...], "aliases": [[flag, alias], ...],
                                         "load": {"ok": true} | {"err": cls, "msg": ...},
-                                        "keys": [...], "results": [result, ...]}, ...]}
+                                        "keys": [...], "table": [[GROUP, [[LABEL, bit], ...]], ...] (the loaded dictionary, in its own order),
+                                        "results": [result, ...]}, ...]}
 call  : {"k": "val",   "g": group, "labels": [..] | "label": str}
         {"k": "name",  "g": group, "v": int, "concat": bool, "np": bool}
         {"k": "exist", "g": group, "labels": [..] | "label": str, "fe": bool, "we": bool}
@@ -77,20 +78,23 @@ def run_call_(c):
         if k == 'exist':
             fe, we = bool(c['fe']), bool(c['we'])
             r = S.sdss_flagexist(c['g'], bitarg(c), flagexist=fe, whichexist=we)
-            if fe and we:
-                l, f, which = r
-                flat = [l, f] + list(which)
-            elif fe:
-                l, f = r
-                flat = [l, f]
-            elif we:
-                l, which = r
-                flat = [l] + list(which)
-            else:
-                flat = [r]
+            # flattened generically (by what came back, not by the flags asked for); `shape` records the structure
+            items = list(r) if isinstance(r, tuple) else [r]
+            flat = []
+            shp = []
+            for it in items:
+                if isinstance(it, (bool, np.bool_)):
+                    flat.append(it)
+                    shp.append('bool')
+                elif isinstance(it, list):
+                    flat.extend(it)
+                    shp.append('list')
+                else:
+                    return {'err': 'BadType', 'msg': 'component %r in %r' % (it, r)}
+            shape = ('tuple:' if isinstance(r, tuple) else '') + ','.join(shp)
             if not all(isinstance(x, (bool, np.bool_)) for x in flat):
                 return {'err': 'BadType', 'msg': 'non-boolean in %r' % (r,)}
-            return {'bools': [bool(x) for x in flat]}
+            return {'bools': [bool(x) for x in flat], 'shape': shape}
         if k == 'vnv':
             names = S.sdss_flagname(c['g'], int(c['v']))
             return as_val(S.sdss_flagval(c['g'], names))
@@ -99,6 +103,27 @@ def run_call_(c):
             return as_names(S.sdss_flagname(c['g'], v))
         return {'err': 'BadCall', 'msg': k}
     except Exception as e:  # noqa: BLE001 - the error class is the observation
+        return err(e)
+
+
+def dump_table(mb):
+    """the loaded dictionary cell by cell, in dictionary order: [[GROUP, [[LABEL, bit], ...]], ...]
+    (or {'err': ...} when it is not a dict of str -> dict of str -> integer)"""
+    try:
+        if not isinstance(mb, dict):
+            return {'err': 'BadType', 'msg': 'maskbits is %s' % type(mb).__name__}
+        tb = []
+        for g, d in mb.items():
+            if not isinstance(g, str) or not isinstance(d, dict):
+                return {'err': 'BadType', 'msg': 'entry %r: %s' % (g, type(d).__name__)}
+            ent = []
+            for lab, b in d.items():
+                if not isinstance(lab, str) or isinstance(b, bool) or not isinstance(b, (int, np.integer)):
+                    return {'err': 'BadType', 'msg': 'cell %r/%r = %r (%s)' % (g, lab, b, type(b).__name__)}
+                ent.append([lab, int(b)])
+            tb.append([g, ent])
+        return tb
+    except Exception as e:  # noqa: BLE001
         return err(e)
 
 
@@ -130,6 +155,7 @@ def run_file(f):
         S.maskbits = S.set_maskbits(maskbits_file=f['path'])
         out['load'] = {'ok': True}
         out['keys'] = sorted(S.maskbits.keys())
+        out['table'] = dump_table(S.maskbits)
     except Exception as e:  # noqa: BLE001
         out['load'] = err(e)
         S.maskbits = {}
